@@ -75,6 +75,16 @@ MUTS = [
     ('H06 new: local for the converted list', F, '        Self {\n            passes: passes.into(),\n        }',
      '        let list = passes.into();\n        Self { passes: list }', None),
 ]
+MUTS += [
+    ('M14 add: appends although a pass of that type is present', F, '        if ids.contains(&pass_id) {\n            return;\n        }\n', '        let _ = ids.contains(&pass_id);\n',
+     'C05.lift_passes.add.no_op_when_a_pass_of_that_kind_is_present'),
+    ('M15 add: puts the new pass FIRST', F, 'self.passes.push(alloc);', 'self.passes.insert(0, alloc);',
+     'C05.lift_passes.add.otherwise_appended_at_the_end_existing_passes_unchanged'),
+    ('M16 add: the presence test inverted', F, 'if ids.contains(&pass_id) {', 'if !ids.contains(&pass_id) {', 'C05.lift_passes.add'),
+    ('H07 run: loop variable renamed (the R-FOREACH text names it: undecided is the documented answer)', F, LOOP,
+     '        for lifting_pass in &mut self.passes {\n            value = lifting_pass.run(value, state)?;\n        }\n\n        Ok(value)', None),
+    ('H08 add: locals renamed', F, ['let alloc = Box::new(pass);\n        self.passes.push(alloc);'], ['let boxed = Box::new(pass);\n        self.passes.push(boxed);'], None),
+]
 # H05 needs a second replacement to close the expression
 MUTS[17] = ('H05 default: list built in a local first', F,
             ['Self {\n            passes: vec![', '                MappingOffset::new(),\n            ],\n        }'],
